@@ -154,7 +154,7 @@ func loadIHGraph(rd io.Reader) (edges []ihEdge, states int, err error) {
 
 var ihROM = func() []byte {
 	img := make([]byte, 0x8000)
-	img[0x40] = 0xd9                                 // handler 0: RETI
+	img[0x40] = 0xd9                                   // handler 0: RETI
 	img[0x50], img[0x51], img[0x52] = 0xfb, 0x00, 0xd9 // handler 1: EI, NOP, RETI
 	return img
 }()
